@@ -1532,3 +1532,31 @@ mod test {
         }
     }
 }
+
+#[cfg(eigerco_lumina_verif)]
+pub(crate) mod verif_hooks {
+    use super::*;
+
+    #[derive(Default)]
+    pub(crate) struct SearchCache(Cache);
+
+    pub(crate) async fn find<S: Store>(
+        cache: &mut SearchCache,
+        store: &S,
+        stored: &BlockRanges,
+        cutoff: &Time,
+        prev: Option<u64>,
+        mode: u8,
+    ) -> std::result::Result<Option<Option<u64>>, String> {
+        let res = match mode {
+            1 => find_height_after_window_fast(store, stored, cutoff, prev, &mut cache.0).await,
+            2 => find_height_after_window_slow(store, stored, cutoff, &mut cache.0)
+                .await
+                .map(Some),
+            _ => find_height_after_window(store, stored, cutoff, prev, &mut cache.0)
+                .await
+                .map(Some),
+        };
+        res.map_err(|e| e.to_string())
+    }
+}
